@@ -101,7 +101,9 @@
             check(format!("{}{}{}", ht, ft, ut), Some((hv + add).to_string()), &mut failures);
         }}}
         // 5. near-miss malformed numerals are refused, never joined into a wrong value
-        for t in ["1.", ".5", "1..5", "1.5.2", "1,00", "1,0000", "1,,000", "十百", "億万", "1.5千5百", "1.5千500", "三百二十百", "万", "1万万", "1千万億1万億", "一十十", "2百3千"] {
+        for t in ["1.", ".5", "1..5", "1.5.2", "1,00", "1,0000", "1,,000", "十百", "億万", "1.5千5百", "1.5千500", "三百二十百", "万", "1万万", "1千万億1万億", "一十十", "2百3千",
+                  // a point that is followed by a unit instead of a digit is dangling
+                  "1.万", "3.千", "二.百万", "12.十", "2千5.百", "1.億2万", "5.", "5.万3", "1,.5", "1.,5", "1,000.", "1,000.万"] {
             check(t.to_string(), None, &mut failures);
         }
         println!("verif_oracle_numerals_render_their_value: {} cases, {} failures", cases, failures.len());
